@@ -15,9 +15,10 @@ const (
 	D = 1
 	E = 2
 	X = 3
+	O = 4 // root of a second, independent hierarchy (seq-errors only)
 )
 
-var slotNames = []string{"/", "D", "E", "X"}
+var slotNames = []string{"/", "D", "E", "X", "O"}
 
 type loc struct {
 	d int
@@ -97,6 +98,25 @@ func (l *opList) link(at ...loc) {
 func (l *opList) lookup(at ...loc) {
 	for _, a := range at {
 		l.add("VirtualLookup "+a.String(), slotsBound(a.d), "VirtualLookup", func(s *st) { s.vLookup(a.d, a.n) })
+	}
+}
+
+func (l *opList) lookupPlain(at ...loc) {
+	for _, a := range at {
+		l.add("VirtualLookup(no locked attributes) "+a.String(), slotsBound(a.d), "VirtualLookup", func(s *st) { s.vLookupMask(a.d, a.n, maskPlain) })
+	}
+}
+
+func (l *opList) foreign(at ...loc) {
+	for _, a := range at {
+		l.add("VirtualLink(foreign leaf) "+a.String(), slotsBound(a.d), "VirtualLink", func(s *st) { s.vLinkForeign(a.d, a.n) })
+		l.add("VirtualRename(to foreign directory) "+a.String(), slotsBound(a.d), "VirtualRename", func(s *st) { s.vRenameForeign(a.d, a.n) })
+	}
+}
+
+func (l *opList) installHooks(dirs ...int) {
+	for _, d := range dirs {
+		l.add("InstallHooks "+slotNames[d], slotsBound(d), "InstallHooks", func(s *st) { s.installHooks(d) })
 	}
 }
 
@@ -280,6 +300,7 @@ var seqCfgs = []*seqCfg{
 			l.mkdir(cat(at(R, "d", "b"), at(D, "e"), at(E, "a"))...)
 			l.mknod(nodSymlink, at(R, "b")...)
 			l.lookup(cat(at(R, "d"), at(D, "e"))...)
+			l.lookupPlain(cat(at(R, "d", "a"), at(D, "n"))...)
 			return l.ops
 		},
 	},
@@ -462,13 +483,17 @@ var seqCfgs = []*seqCfg{
 		// Error returns: every call against a removed directory (slot D
 		// after its removal), a directory whose materialisation fails,
 		// with failing allocators, wrong kinds and occupied names.
-		name: "seq-errors", nslots: 4, slotX: -1,
+		name: "seq-errors", nslots: 5, slotX: -1,
 		setup: func(c *mc.SeqCtx, s *st) {
 			setupTree(true)(c, s)
 			s.do(c, "setup", func() {
 				s.bCreateChildren(R, []childSpec{lazyDir("z", true, []string{"a"}, nil)}, false)
 			})
 			s.slots[X] = s.m.find(s.slots[R], "z").node
+			// A second hierarchy with its own root.
+			other := s.m.newDir(1, &mLazy{})
+			s.slots[O] = other
+			s.bindDir(other, newRoot(s.w, false, false))
 		},
 		depth: map[string]int{"quick": 3, "thorough": 4},
 		ops: func(cfg *seqCfg) []mc.SeqOp {
@@ -503,6 +528,13 @@ var seqCfgs = []*seqCfg{
 				l.bReadDir(d)
 				l.lookupAllChildren(d)
 			}
+			l.foreign(at(R, "a")...)
+			l.installHooks(R, D)
+			l.lookupPlain(at(R, "a", "d", "n")...)
+			// Across hierarchies: files may move, directories may not.
+			l.mkdir(at(O, "d")...)
+			l.rename(at(R, "a", "d"), at(O, "a", "d"))
+			l.rename(at(O, "a", "d"), at(R, "n", "d"))
 			l.rename(at(R, "a", "d", "z", "n"), cat(at(R, "z"), at(D, "n"), at(E, "a"), at(X, "a", "n")))
 			l.rename(cat(at(D, "b", "n"), at(X, "a")), cat(at(R, "n", "d"), at(D, "n"), at(E, "n")))
 			return l.ops
